@@ -261,6 +261,25 @@ class Ctx:
         return os.path.relpath(path, VERIF)
 
 
+class Timeout(Exception):
+    pass
+
+
+def with_timeout(sec, fn):
+    """run fn() in this process, raising Timeout after `sec` seconds (SIGALRM)"""
+    import signal
+
+    def h(*_):
+        raise Timeout()
+    old = signal.signal(signal.SIGALRM, h)
+    signal.setitimer(signal.ITIMER_REAL, sec)
+    try:
+        return fn()
+    finally:
+        signal.setitimer(signal.ITIMER_REAL, 0)
+        signal.signal(signal.SIGALRM, old)
+
+
 def hash_int(s):
     return int(hashlib.sha1(s.encode()).hexdigest()[:8], 16)
 
